@@ -566,7 +566,14 @@ def real_class_programs(pid, regs, rng, out, nprog, tier, per=8):
                     seen.add((m, tuple(vp)))
                     dd.append((m, d, vp))
             abstract = [c for c in classes if rng.random() < 0.25]
-            scen.append((idx, classes, edges, statements, methods, dd, abstract))
+            # signature shapes through the macro front end: non-virtual parameters anywhere, pointer and virtual_ptr parameters
+            shapes = {}
+            for m, vp in methods:
+                if len(vp) == 1:
+                    shapes[m] = rng.choice(["V", "V", "NV", "VN", "W", "P", "NPN"])
+                else:
+                    shapes[m] = rng.choice(["VV", "VNV", "NVVN", "PV", "VP", "PNP", "WV", "NWNP"])
+            scen.append((idx, classes, edges, statements, methods, dd, abstract, shapes))
         name = "real%d" % pi
         sources[name] = LE.program(name, scen)
     res = gen.build_and_run(sources, extra=(["-DNDEBUG"] if tier == "quick" else []))
